@@ -112,7 +112,7 @@ def spec_apply(meta, req):
 def run_case(run, drv, case_seed, max_len):
     rng = random.Random(case_seed)
     with sandbox("c07") as box:
-        m = metas.make_meta(rng, box)
+        m = foreign_meta(rng, box) if rng.random() < 0.3 else metas.make_meta(rng, box)
         case = {"case_seed": case_seed, "version": m["version"], "opts": m["opts"],
                 "creator": m["creator"], "requests": []}
         nreq = rng.randrange(1, max_len + 1)
@@ -159,6 +159,44 @@ def run_case(run, drv, case_seed, max_len):
              nreq >= 2 and any("" in r["req"].values() or None in r["req"].values()
                                for r in case["requests"]),
              sample=case, classes=[f"v{m['version']}", f"requests={nreq}"])
+
+
+def foreign_meta(rng, box):
+    """A metafile written by another tool: falsy optional values (private = 0), unknown keys,
+    a zero-length single file, optional fields present/absent in every combination."""
+    pl = 16384
+    version = rng.choice([1, 2, 3])
+    single = rng.random() < 0.5
+    empty = single and version == 1 and rng.random() < 0.4
+    files = [(("f",), b"" if empty else b"z" * rng.choice([1, pl, pl + 9]))] if single else \
+        [(("a",), b"A" * 100), (("d", "b"), b"B" * (pl + 1))]
+    info_extra = {}
+    if rng.random() < 0.6:
+        info_extra["private"] = rng.choice([0, 0, 1])
+    if rng.random() < 0.4:
+        info_extra["source"] = rng.choice(["", "src"])
+    if rng.random() < 0.4:
+        info_extra["comment"] = rng.choice(["", "c"])
+    if rng.random() < 0.3:
+        info_extra["x-ext"] = rng.choice([0, "", [], {}])
+    extra = {"created by": "other tool"}
+    if rng.random() < 0.5:
+        extra["announce"] = "http://t/a"
+    if rng.random() < 0.3:
+        extra["announce-list"] = [["http://t/a"], ["http://t/b"]]
+    if rng.random() < 0.3:
+        extra["url-list"] = ["http://w/1"]
+    if rng.random() < 0.2:
+        extra["nodes"] = []
+    meta = refspec.ref_metafile("f" if single else "dir", files, pl, version, single=single,
+                                trailing_pad=True, with_length=True, extra=extra,
+                                info_extra=info_extra)
+    raw = refspec.encode(meta)
+    path = os.path.join(box, "foreign.torrent")
+    with open(path, "wb") as fd:
+        fd.write(raw)
+    return {"raw": raw, "path": path, "version": version, "opts": {k: True for k in
+            sorted(info_extra) + sorted(extra)}, "creator": "foreign", "single": single}
 
 
 def _tok(v):
